@@ -87,6 +87,10 @@ def _warmup(h):
         SC.s_betweenness(h, s=s)
         SC.s_closeness(h, s=s)
     PR.line_graph(h, distance="jaccard", s=0.5)
+    # thresholds above every hyperedge size: an answer that prunes "too small" hyperedges must
+    # not prune them in the object itself
+    PR.line_graph(h, distance="intersection", s=4)
+    PR.line_graph(h, distance="intersection", s=6, weighted=True)
     SC.s_betweenness_nodes(h)
     SC.s_closeness_nodes(h)
 
